@@ -154,8 +154,22 @@ func (a *Affiliation) computeTriggersForCastingSites(pass *analysishelper.Enhanc
 						if declObj := pass.TypesInfo.Uses[ident]; declObj != nil {
 							if fdecl, ok := declObj.(*types.Func); ok {
 								fsig := fdecl.Type().(*types.Signature)
-								for i := 0; i < fsig.Params().Len() && i < len(node.Args); i++ {
-									lhsType := fsig.Params().At(i).Type()          // receiver param of method declaration
+								nParams := fsig.Params().Len()
+								for i := 0; i < len(node.Args); i++ {
+									var lhsType types.Type // parameter of the declaration
+									switch {
+									case fsig.Variadic() && i >= nParams-1:
+										// the arguments of a variadic parameter `is ...I` are converted to I
+										// one by one, unless a slice is spread into it (`is...`)
+										lhsType = fsig.Params().At(nParams - 1).Type()
+										if slice, ok := lhsType.(*types.Slice); ok && !node.Ellipsis.IsValid() {
+											lhsType = slice.Elem()
+										}
+									case i < nParams:
+										lhsType = fsig.Params().At(i).Type()
+									default:
+										continue
+									}
 									rhsType := pass.TypesInfo.TypeOf(node.Args[i]) // caller param
 									appendTypeToTypeTriggers(lhsType, rhsType)
 								}
